@@ -6,8 +6,10 @@ CONSTANTS NP = 2 NA = 2 NS = 1 V6 = {} BlackAddr = {} BlackMid = {} IpCap = 1 In
 VIEW NoRetOp
 INVARIANT TypeOK
 INVARIANT LookupsAgree
+INVARIANT HistoryAgrees
 INVARIANT BlacklistedNeverVerified
 INVARIANT SnapshotRoundTrip
 PROPERTY QueriesPure
 PROPERTY RemovedIsGone
+PROPERTY RemovedIsClean
 PROPERTY ReAddWorks
